@@ -574,7 +574,8 @@ func runConfig(cfg *runCfg) error {
 			"Definition NINVALID := Eval vm_compute in (count_if is_invalid cases : Z).\nPrint NINVALID.\n" +
 			"Definition NUNKNOWNTYPE := Eval vm_compute in (count_if is_unknown_type cases : Z).\nPrint NUNKNOWNTYPE.\n" +
 			"Definition NNORETURN := Eval vm_compute in (count_if is_no_return cases : Z).\nPrint NNORETURN.\n" +
-			"Definition NTEMPLATEOK := Eval vm_compute in (count_if is_template_ok cases : Z).\nPrint NTEMPLATEOK.\n",
+			"Definition NTEMPLATEOK := Eval vm_compute in (count_if is_template_ok cases : Z).\nPrint NTEMPLATEOK.\n" +
+			"Definition NTLSFLAGON := Eval vm_compute in (count_if is_tls_flag_on cases : Z).\nPrint NTLSFLAGON.\n",
 	}
 	if err := cf.Write(cfg.Out); err != nil {
 		return err
